@@ -589,6 +589,12 @@ def py_eq(self, a, b):
     """Python == as bool / Sym bool."""
     if type(a).__name__ == "_UndefinedOld" or type(b).__name__ == "_UndefinedOld":
         return False
+    if type(a).__name__ == "StrParts" or type(b).__name__ == "StrParts":
+        # f-strings with symbolic pieces: compare as strings (int pieces through their decimal rendering)
+        if isinstance(a, (str, Sym)) or type(a).__name__ == "StrParts":
+            if isinstance(b, (str, Sym)) or type(b).__name__ == "StrParts":
+                return self.wrap(self.to_z3(a, "str") == self.to_z3(b, "str"), "bool")
+        return False
     if isinstance(a, NT):
         a = a.items
     if isinstance(b, NT):
@@ -1107,6 +1113,38 @@ def eval_comprehension(self, node):
 
 
 # -- attributes --------------------------------------------------------------------------------------------------
+_NO_INITIAL = object()
+
+
+def _initial_field_value(self, obj, name):
+    """A field the contract's OBJ declaration does not mention (typically one that a later change of the class introduced): if some
+    __init__ in the MRO assigns `self.<name> = <empty container or literal>`, use that initial value; otherwise _NO_INITIAL."""
+    for cls in self.mro(obj.cls):
+        if not isinstance(cls, ClassInfo):
+            continue
+        found, f, _ = self.class_attr_raw(cls, "__init__") if "__init__" in getattr(cls, "methods", {"__init__": 1}) else (False, None, None)
+        node = getattr(f, "node", None)
+        if node is None:
+            continue
+        for st in ast.walk(node):
+            tgt = val = None
+            if isinstance(st, ast.AnnAssign) and st.value is not None:
+                tgt, val = st.target, st.value
+            elif isinstance(st, ast.Assign) and len(st.targets) == 1:
+                tgt, val = st.targets[0], st.value
+            if not (isinstance(tgt, ast.Attribute) and isinstance(tgt.value, ast.Name) and tgt.value.id == "self" and tgt.attr == name):
+                continue
+            if isinstance(val, ast.Constant):
+                return val.value
+            if isinstance(val, (ast.List, ast.Dict, ast.Set, ast.Tuple)) and not (getattr(val, "elts", None) or getattr(val, "keys", None)):
+                return self.eval(val)
+            if (isinstance(val, ast.Call) and isinstance(val.func, ast.Name) and val.func.id in ("set", "dict", "list", "deque", "OrderedDict")
+                    and not val.args and all(isinstance(k.value, ast.Constant) for k in val.keywords)):
+                return self.call(self.builtins[val.func.id] if val.func.id in self.builtins else self.eval(val.func), [],
+                                 {k.arg: k.value.value for k in val.keywords})
+            return _NO_INITIAL
+    return _NO_INITIAL
+
 
 def do_getattr(self, obj, name):
     from .interp import ClassM, Prop, StaticM, TaskM
@@ -1143,6 +1181,12 @@ def do_getattr(self, obj, name):
                 return val
             if "__data__" in obj.fields:
                 return self.do_getattr(obj.fields["__data__"], name)
+            init = _initial_field_value(self, obj, name)
+            if init is not _NO_INITIAL:
+                obj.fields[name] = init
+                self.path.assumptions.add(f"field {obj.cls.name}.{name} is not mentioned by the contract: taken in the initial state its "
+                                          f"__init__ gives it")
+                return init
         elif isinstance(obj.cls, BuiltinClass):
             m = self.methods.get(("exc", name))
             if m is not None:
@@ -1616,12 +1660,18 @@ class _NoHook:
 _NOHOOK = _NoHook()
 
 
+_yield_memo: dict = {}
+
+
 def _has_yield(fn):
-    for n in ast.walk(fn):
-        if isinstance(n, (ast.Yield, ast.YieldFrom)):
-            # ignore yields of nested defs
-            yield True
-            return
+    """generator of at most one True: does the function body contain a yield (memoised per AST node: the walk is expensive)"""
+    key = id(fn)
+    hit = _yield_memo.get(key)
+    if hit is None:
+        hit = (any(isinstance(n, (ast.Yield, ast.YieldFrom)) for n in ast.walk(fn)), fn)   # keeps fn alive: ids stay unique
+        _yield_memo[key] = hit
+    if hit[0]:
+        yield True
 
 
 def new_instance(self, cls: ClassInfo, args, kwargs):
